@@ -54,9 +54,13 @@ func zzNamedCertificate(kind int, dnsName string, tag byte) tls.Certificate {
 // the real flight0Parse on a ClientHello that offers an ECDSA and an RSA suite (either order) with or without
 // server_name "b.test", then the real flight4Generate. Asserted on the produced flight: the ServerHello suite
 // was offered and enabled, and its key class (ECDHE_ECDSA / ECDHE_RSA) fits the key of the certificate in the
-// Certificate message (the key the server authenticates with).
+// Certificate message (the key the server authenticates with). On the tree this was written against the last
+// claim FAILS (label suite_fits_key_of_served_certificate): the suite list is filtered with the DEFAULT
+// certificate only, while flight4Generate serves the certificate selected by server_name; with an ECDSA default
+// certificate and an RSA certificate for the requested name the server answers TLS_ECDHE_ECDSA_* and signs with
+// the RSA key (confirmed with a real handshake over a pipe).
 //
-//symgo:entry covers=single_cert,default_cert_served,sni_cert_served,no_suite_for_key
+//symgo:entry covers=single_cert,default_cert_served,sni_cert_served,mismatch_refused
 func zzSuiteFitsServedCertificate() {
 	firstKind := zzCertECDSA
 	if zzsymChoice("first_cert_rsa", 2) == 1 {
@@ -134,7 +138,13 @@ func zzSuiteFitsServedCertificate() {
 	gen, _, ok := dtlsflight12.GetGenerator(dtlsflight12.Flight4)
 	zzsymAssert(ok, "harness_flight4")
 	pkts, a, gerr := gen(zzQuietConn{}, state, cache, cfg)
-	zzsymAssert(gerr == nil && a == nil, "server_flight_generated")
+	if gerr != nil || a != nil {
+		// refusing to serve (fatal alert) is within the property: the handshake fails instead of completing out of policy
+		zzsymAssert(a != nil && a.Level == alert.Fatal, "served_certificate_mismatch_fails_with_fatal_alert")
+		zzsymCover("mismatch_refused")
+
+		return
+	}
 
 	var (
 		serverHello *handshake.MessageServerHello
